@@ -554,6 +554,85 @@ def evaluate(chk, r, out, stats):
         chk.violation(_desc(r, "nonfinite_unflagged", out), f"{k}: molecules {unflagged} have non-finite results without a notconverged flag", replay=r)
 
 
+# ------------------------------------------------------------------ refusals must not depend on what the driver served before
+
+
+def t_history_refusal(item):
+    """A request that a NEW driver refuses (heterogeneous batch for a method that needs a homogeneous one) handed to a
+    driver that served a homogeneous batch of the same shape before - in a single point, or as the driver of an MD run
+    (`md.esdriver`).  Differential oracle: the used driver must give the outcome of the new driver (refused -> refused;
+    accepted -> same excitation energies)."""
+    import copy as _copy
+
+    import torch
+
+    from ..drivers import md as MD
+
+    method, prior, exc, force, seed = item
+    base = dict(sp.make_params(method, "adaptive", 1e-8), elements=[0, 1, 6, 7], excited_states={"n_states": 2, "method": exc, "tolerance": 1e-6})
+    R = M.generic_rot(seed)
+    ch4 = M.apply(M.get("CH4"), R)
+    ch4b = dict(ch4)
+    ch4b["coords"] = ch4["coords"] * 1.02 + 0.03 * np.sin(1.0 + np.arange(ch4["coords"].size)).reshape(ch4["coords"].shape)
+    nh4 = M.apply(M.get("NH4+"), R)
+    homo, hetero = [ch4, ch4b], [ch4, nh4]
+
+    def outcome(es, molecule):
+        molecule.verbose = False
+        molecule.active_state = 1
+        try:
+            es(molecule, **({} if force else {"do_force": False}))
+        except Exception as e:  # noqa: BLE001
+            return {"status": "raised", "exc": type(e).__name__}
+        ce = getattr(molecule, "cis_energies", None)
+        return {"status": "returned", "cis": sp.to_np(ce) if torch.is_tensor(ce) else None}
+
+    p1 = _copy.deepcopy(base)
+    m1, es1 = sp.build(hetero, p1)
+    fresh = outcome(es1, m1)
+    p2 = _copy.deepcopy(base)
+    if prior == "sp":
+        m0, es = sp.build(homo, p2)
+        first = outcome(es, m0)
+    else:
+        r = MD.run_md("bomd", homo, p2, 2, dt=0.2, temp=50.0, seed=1, active_state=1, copy_params=False,
+                      out=dict(data=0, coordinates=0, velocities=0, forces=0, xyz=0, print_every=0, checkpoint_every=0))  # fmt: skip
+        first = {"status": "raised", "exc": r["error"]} if r["error"] else {"status": "returned"}
+        es = r["engine"].esdriver if r.get("engine") is not None else None
+    if first["status"] != "returned" or es is None:
+        return {"excluded": f"the homogeneous {prior} call itself was refused: {first}"}
+    m2, _ = sp.build(hetero, p2, es=es)
+    used = outcome(es, m2)
+    return {"fresh": fresh, "used": used}
+
+
+def history_refusals(chk, tier, seed):
+    items = []
+    for method in ["AM1"] if tier == "quick" else ["AM1", "PM3", "MNDO"]:
+        for prior in ("sp", "md"):
+            for exc, force in (("rpa", False), ("rpa", True), ("cis", True), ("cis", False)):
+                items.append((method, prior, exc, force, seed))
+    res = pmap(t_history_refusal, items, chunk=1, timeout=900, progress="C18 refusals after a history")
+    for it, r in zip(items, res):
+        key = f"history|{it[0]}|prior={it[1]}|{it[2]}|{'F' if it[3] else 'E'}"
+        desc = {"family": "history", "method": it[0], "prior": it[1], "excited": it[2], "force": bool(it[3])}
+        if is_timeout(r) or is_error(r):
+            chk.violation(desc, f"{key}: {str(r)[:300]}", replay={"history": list(it)})
+            continue
+        if "excluded" in r:
+            chk.rejected += 1
+            chk.case(key, nontrivial=False, outcome="prior refused")
+            continue
+        f, u = r["fresh"], r["used"]
+        chk.case(key, nontrivial=True, outcome=f"{f['status']}|{u['status']}")
+        if f["status"] != u["status"]:
+            chk.violation(desc, f"{key}: a new driver {f['status']} ({f.get('exc')}) the heterogeneous request, the driver that served a homogeneous batch before {u['status']} ({u.get('exc')}) it", replay={"history": list(it)})
+        elif f["status"] == "returned" and f.get("cis") is not None and u.get("cis") is not None:
+            d = float(np.nanmax(np.abs(np.asarray(f["cis"])[:, :2] - np.asarray(u["cis"])[:, :2])))  # the two requested states
+            if not d <= 1e-5:
+                chk.violation(desc, f"{key}: excitation energies of the heterogeneous batch differ by {d:.2e} eV between a new driver and the used one", replay={"history": list(it)})
+
+
 def run(chk, tier, seed):
     import vp
 
@@ -580,10 +659,15 @@ def run(chk, tier, seed):
     chk.extra["molecules_flagged_notconverged"] = stats["flagged_notconverged"]
     chk.extra["rejections_after_auxiliary_attributes_written"] = stats["aux_written_before_raise"]
     chk.extra["cpu_s_in_calls"] = round(stats["t"], 1)
+    history_refusals(chk, tier, seed)
 
 
 def replay(payload):
     r = payload["replay"]
+    if "history" in r:
+        o = t_history_refusal(tuple(r["history"]))
+        print("  ", o)
+        return "excluded" in o or o["fresh"]["status"] == o["used"]["status"]
     out = execute(r)
     print("  ", {k: v for k, v in out.items() if k not in ("t",)})
     st = out["status"]
